@@ -237,6 +237,7 @@ def hasIndex := binMarks hasIndexU
 def lengthU (v : Value) : Res Value :=
   match v.ty with
   | .tuple es => .ok (intVal es.length)
+  | .object ns _ _ => .ok (intVal ns.length)
   | _ =>
     if !v.isKnown then do
       let r ← v.range
@@ -279,6 +280,21 @@ def hasElement (v elem : Value) (elemHash : Option Int) : Res Value :=
   if v.isMarked || elem.containsMarked then
     (hasElementU v.unmark elem.unmarkDeep elemHash).map (·.withMarks (unionMarks v.marks elem.marksDeep))
   else hasElementU v elem elemHash
+
+/-! ### LessThanOrEqualTo / GreaterThanOrEqualTo: `LessThan(other).Or(Equals(other))` -/
+def lessThanOrEqualTo (a b : Value) : Res Value := do
+  let l ← lessThan a b
+  let e ← equals a b
+  or l e
+def greaterThanOrEqualTo (a b : Value) : Res Value := do
+  let g ← greaterThan a b
+  let e ← equals a b
+  or g e
+
+/-- NotEqual: `Equals(other).Not()` -/
+def notEqual (a b : Value) : Res Value := do
+  let e ← equals a b
+  «not» e
 
 end Value
 end CtyModel
